@@ -182,7 +182,7 @@ def shard(ctx):
     # ---------------- (B) random programs
     n = 250 if ctx.quick else 12000
     rng = ctx.rng("B")
-    o = gen.Opts(types=True, calls=True, msgs=True)
+    o = gen.Opts(types=True, calls=True, msgs=True, interp=True)
     for t in range(n):
         doc = gen.gen_doc(rng)
         f = gen.gen_file(rng, doc, o)
